@@ -1122,3 +1122,204 @@ def describe(case):
         return {'cmd': cmd, 'tree': show(expr_unwire(w, 1)[0])}
     except Exception:
         return {'line': case.line[:300]}
+
+
+# ---- extraction cross-check: the same cases evaluated inside Coq by vm_compute
+# The driver ocaml/c19.ml prints, per line: the lexer's answer, parse_unfolded's tree, its fold, Display of both and
+# what re-reading the two displayed strings gives, and (on the c-prefixed copies) the reference reader's tree; a model
+# Panic anywhere turns the whole line into 'panic'.  The term below computes the same chain with the same instances as
+# P19.v (lexer/fold at FNum, display with fmt_float) and encodes every printed item; the driver's internal consistency
+# checks against f_parser print nothing when they hold and are not re-done here.
+from tools import xenc
+COQ_IMPORTS = 'Base.XEnc Base.Str Model.Expr Model.RefExpr'
+XCHECK_N = 200
+_X_OPS = ['Add', 'Sub', 'Div', 'Mul', 'CDot', 'Rem', 'Caret', 'Fac']
+_X_FNS = ['Sin', 'Cos', 'Tan', 'Cot', 'Log', 'Ln']
+_X_KS = ['Pi', 'E', 'Tau', 'Phi']
+
+_X_PRELUDE = '''(
+  let ec := fun c => match c with KPi => 0 | KE => 1 | KTau => 2 | KPhi => 3 end in
+  let eo := fun o => match o with OAdd => 0 | OSub => 1 | ODiv => 2 | OMul => 3 | OCDot => 4 | ORem => 5 | OCaret => 6 | OFac => 7 end in
+  let ef := fun f => match f with FSin => 0 | FCos => 1 | FTan => 2 | FCot => 3 | FLog => 4 | FLn => 5 end in
+  let et := fun (t : token float) => match t with
+    | TNum x => [0; float_bits x] | TVar v => 1 :: enc_str v | TOp o => [2; eo o] | TFun f => [3; ef f]
+    | TConst c => [4; ec c] | TLParen => [5] | TRParen => [6] end in
+  let ee := fix ee (e : expr float) : list Z := match e with
+    | ENum x => [0; float_bits x] | EVar v => 1 :: enc_str v | EConst c => [2; ec c]
+    | EFun f i => 3 :: ef f :: ee i | EPre o v => 4 :: eo o :: ee v | EPost o v => 5 :: eo o :: ee v
+    | EBin o l r p => 6 :: eo o :: (if p then 1 else 0) :: ee l ++ ee r end in
+  let P := -2 in
+  let rr := fun (text : list N) =>
+    match @lexer float FNum text with
+    | Panic _ => [P] | Err e => [1; err_code e]
+    | Ok ts => match @parse_unfolded float ts with
+      | Panic _ => [P] | Err e => [2; err_code e]
+      | Ok e => match @fold_operations float FNum e with Ok e' => 0 :: ee e' | _ => [P] end end end in
+  let aft := fun (u : expr float) =>
+    match @fold_operations float FNum u with
+    | Ok f => ee f ++ enc_str (@display float fmt_float u) ++ rr (@display float fmt_float u)
+              ++ enc_str (@display float fmt_float f) ++ rr (@display float fmt_float f)
+    | _ => [P] end in
+  let atk := fun (wr : bool) (ts : list (token float)) =>
+    match @parse_unfolded float ts with
+    | Panic _ => [P] | Err e => [1; err_code e] | Ok u => 0 :: ee u ++ aft u end
+    ++ (if wr then enc_opt ee (@ref_read float ts) else []) in
+  let fin := fun (l : list Z) => if existsb (Z.eqb P) l then [2] else l in
+  '''
+
+
+def _x_tok(w):
+    if w == 'lp':
+        return 'TLParen'
+    if w == 'rp':
+        return 'TRParen'
+    k, v = w[:2], w[2:]
+    if k == 'n:':
+        return 'TNum %s%%float' % xenc.coq_float(hex2f(v))
+    if k == 'v:':
+        return 'TVar %s' % xenc.cq_str([int(x) for x in v.split(',') if x])
+    if k == 'o:' and v in _X_OPS:
+        return 'TOp O' + v
+    if k == 'f:' and v in _X_FNS:
+        return 'TFun F' + v
+    if k == 'c:' and v in _X_KS:
+        return 'TConst K' + v
+    raise ValueError(w)
+
+
+def _x_expr(t):
+    w = t.word()
+    if w == 'N':
+        return '(ENum %s%%float)' % xenc.coq_float(t.fl())
+    if w == 'V':
+        return '(EVar %s)' % xenc.cq_str(t.cpstr())
+    if w == 'C':
+        return '(EConst K%s)' % t.word()
+    if w == 'F':
+        f = t.word()
+        return '(EFun F%s %s)' % (f, _x_expr(t))
+    if w in 'PQ':
+        o = t.word()
+        return '(%s O%s %s)' % ('EPre' if w == 'P' else 'EPost', o, _x_expr(t))
+    if w == 'B':
+        o = t.word()
+        p = t.int() == 1
+        l = _x_expr(t)
+        r = _x_expr(t)
+        return '(EBin O%s %s %s %s)' % (o, l, r, xenc.cq_bool(p))
+    raise ValueError(w)
+
+
+def coq_term(case):
+    # crc thinning below XCHECK_N so that every eligible case is taken; the small classes are thinned less
+    c = case.cls
+    m = (2 if c in ('string-deep', 'exh0-text', 'exh1-text') else 12 if c == 'tree-fixed' else 150 if c.startswith('string-')
+         else 300 if c.startswith('tree-') or c == 'expr-direct' else 60 if c.startswith('exh2') else 600 if c.startswith('exh3')
+         else 1200 if 'sample' in c else 6000)
+    if not xenc.keep(case, m):
+        return None
+    t = xenc.Toks(case.line)
+    cmd = t.word()
+    wr = xenc.cq_bool(cmd[0] == 'c' and cmd != 'ctree')
+    try:
+        if cmd in ('text', 'ctext'):
+            s = t.cpstr()
+            if len(s) > 120:                      # the 200-character nests are deep recursions for Coq's VM
+                return None
+            body = ('fin (match @lexer float FNum %s with Panic _ => [P] | Err e => [1; err_code e] '
+                    '| Ok ts => 0 :: enc_list et ts ++ atk %s ts end)' % (xenc.cq_str(s), wr))
+        elif cmd in ('toks', 'ctoks'):
+            ts = '([%s] : list (token float))' % '; '.join(_x_tok(t.word()) for _ in range(t.int()))
+            body = 'fin (0 :: enc_list et %s ++ atk %s %s)' % (ts, wr, ts)
+        elif cmd in ('tree', 'ctree'):
+            e = _x_expr(t)
+            body = 'fin (ee %s ++ aft %s)' % (e, e)
+        else:
+            return None
+    except (ValueError, IndexError):
+        return None
+    return _X_PRELUDE + body + ')'
+
+
+def _x_enc_expr(t, k):
+    """prefix-notation expression in the word list t from index k -> (encoding, next index)"""
+    w = t[k]
+    if w == 'N':
+        return [0, xenc.float_tok_bits(t[k + 1])], k + 2
+    if w == 'V':
+        n = int(t[k + 1])
+        return [1, n] + [int(x) for x in t[k + 2:k + 2 + n]], k + 2 + n
+    if w == 'C':
+        return [2, _X_KS.index(t[k + 1])], k + 2
+    if w == 'F':
+        e, j = _x_enc_expr(t, k + 2)
+        return [3, _X_FNS.index(t[k + 1])] + e, j
+    if w in ('P', 'Q'):
+        e, j = _x_enc_expr(t, k + 2)
+        return [4 if w == 'P' else 5, _X_OPS.index(t[k + 1])] + e, j
+    assert w == 'B', t[k:k + 4]
+    l, j = _x_enc_expr(t, k + 3)
+    r, j = _x_enc_expr(t, j)
+    return [6, _X_OPS.index(t[k + 1]), int(t[k + 2])] + l + r, j
+
+
+def _x_whole_expr(t):
+    e, j = _x_enc_expr(t, 0)
+    assert j == len(t), t
+    return e
+
+
+def _x_enc_tok(w):
+    if w == 'lp':
+        return [5]
+    if w == 'rp':
+        return [6]
+    k, v = w[:2], w[2:]
+    if k == 'n:':
+        return [0, xenc.float_tok_bits(v)]
+    if k == 'v:':
+        cpl = [int(x) for x in v.split(',') if x]
+        return [1, len(cpl)] + cpl
+    return {'o:': [2, _X_OPS.index(v)] if v in _X_OPS else None, 'f:': [3, _X_FNS.index(v)] if v in _X_FNS else None,
+            'c:': [4, _X_KS.index(v)] if v in _X_KS else None}[k]
+
+
+def encode_result(case, model_line):
+    if model_line == 'panic':
+        return [2]
+    out = []
+    for seg in model_line.split(' ; '):
+        t = seg.split()
+        h = t[0]
+        if h == 'INCONSISTENT':
+            continue                                   # a self-check of the driver, judged by compare(), not re-done in Coq
+        if h in ('lex', 'parse'):
+            if t[1] == 'err':
+                out += [1, xenc.err_code(t[2])]
+            elif h == 'lex':
+                n = int(t[2])
+                assert len(t) == 3 + n, seg
+                out += [0, n]
+                for w in t[3:]:
+                    out += _x_enc_tok(w)
+            else:
+                out += [0] + _x_whole_expr(t[2:])
+        elif h in ('tree', 'fold'):
+            out += _x_whole_expr(t[1:])
+        elif h in ('du', 'df'):
+            n = int(t[1])
+            assert len(t) == 2 + n, seg
+            out += [n] + [int(x) for x in t[2:]]
+        elif h in ('ru', 'rf'):
+            if t[1] == 'lexerr':
+                out += [1, xenc.err_code(t[2])]
+            elif t[1] == 'parseerr':
+                out += [2, xenc.err_code(t[2])]
+            else:
+                assert t[1] == 'ok', seg
+                out += [0] + _x_whole_expr(t[2:])
+        elif h == 'ref':
+            out += [0] if t[1] == 'none' else [1] + _x_whole_expr(t[1:])
+        else:
+            return [-99]
+    return out
